@@ -379,7 +379,7 @@ fn run_two(pa: Vec<Step>, pb: Vec<Step>, sched: Vec<usize>) -> Option<Sexp> {
         }));
     }
     let wait = |t: usize| -> Option<bool> {
-        match reply_rx[t].recv_timeout(Duration::from_secs(20)) {
+        match reply_rx[t].recv_timeout(Duration::from_secs(300)) {
             Ok(Reply::Ready) => Some(false),
             Ok(Reply::Finished) => Some(true),
             Err(_) => None,
